@@ -60,8 +60,13 @@ where
         walked_cstore
     }
 
-    /// Add new constraint `c` while keeping the store normalized
-    pub fn push_and_normalize(&mut self, newc: Rc<dyn Constraint<U, E>>) {
+    /// Add new constraint `c` while keeping the store normalized. Returns the constraints
+    /// that were dropped as redundant (the new constraint itself, if it was the redundant one).
+    pub fn push_and_normalize(
+        &mut self,
+        newc: Rc<dyn Constraint<U, E>>,
+    ) -> Vec<Rc<dyn Constraint<U, E>>> {
+        let mut dropped = vec![];
         if let Some(tree_newc) = newc.downcast_ref::<DisequalityConstraint<U, E>>() {
             // A new constraint that is already implied by a stored constraint is redundant;
             // the store is kept as it is.
@@ -72,26 +77,32 @@ where
                 }
             });
             if redundant {
-                return;
+                dropped.push(newc);
+                return dropped;
             }
 
             // Stored constraints that are implied by the new constraint are dropped;
             // all non-subsumable constraints are always carried along.
-            self.0.retain(|storec| {
-                match storec.downcast_ref::<DisequalityConstraint<U, E>>() {
-                    Some(tree_storec) => !tree_newc.subsumes(tree_storec),
-                    None => true,
+            for storec in self.0.iter() {
+                if let Some(tree_storec) = storec.downcast_ref::<DisequalityConstraint<U, E>>() {
+                    if tree_newc.subsumes(tree_storec) {
+                        dropped.push(Rc::clone(storec));
+                    }
                 }
-            });
+            }
+            for storec in dropped.iter() {
+                self.0.remove(storec);
+            }
         }
         self.insert(newc);
+        dropped
     }
 
     /// Remove redundant constraints from the store
     pub fn normalize(self) -> ConstraintStore<U, E> {
         let mut normalized_store = ConstraintStore::new();
         for storec in self.0.into_iter() {
-            normalized_store.push_and_normalize(storec.into());
+            let _ = normalized_store.push_and_normalize(storec.into());
         }
         normalized_store
     }
